@@ -637,6 +637,7 @@ class C16(Prop):
         inner_stat: list = []        # outcome of each inner execute() of the current outer execute()
         cur: dict = {}               # arguments of the execute() in progress
         mut_mods: dict = {1: set(), 2: set()}
+        nexec = [0]
 
         def mk_handler(n, kind, entries, fail=None, sig="1", obj=None, mut=None, exe=None):
             def body(inputs):
@@ -724,14 +725,22 @@ class C16(Prop):
                     spec = W.ModuleSpec(mname(int(t[1])), inputs=pp(rest[iI + 1:iO]), outputs=pp(rest[iO + 1:iC]),
                                         capabilities={self.CAP[int(c)] for c in rest[iC + 1:]})
                     try:
-                        (d if op == "mod" else d2).add_module(spec)
+                        nexec[0] += 1
+                        if nexec[0] % 2:
+                            (d if op == "mod" else d2).add_module(spec)
+                        else:
+                            (d if op == "mod" else d2).add_module(module=spec)
                         o = "ok"
                     except Exception as e:
                         o = self._exc(e)
                 elif op == "wire":
                     a, p, b, q = map(int, t[1:5])
                     try:
-                        r = d.connect(mname(a), pname(p), mname(b), pname(q))
+                        nexec[0] += 1
+                        if nexec[0] % 2:
+                            r = d.connect(mname(a), pname(p), mname(b), pname(q))
+                        else:
+                            r = d.connect(dst_port=pname(q), dst_module=mname(b), src_port=pname(p), src_module=mname(a))
                         o = "ok" if r is None else "returned-something"
                     except Exception as e:
                         o = self._exc(e)
@@ -770,7 +779,11 @@ class C16(Prop):
                     if kind not in ("raise", "retnone", "reenter"):
                         kind = "ret"
                     try:
-                        exe.register_module(mname(n), mk_handler(n, kind, entries, fail, sig, obj, mut, exe))
+                        nexec[0] += 1
+                        if nexec[0] % 2:
+                            exe.register_module(mname(n), mk_handler(n, kind, entries, fail, sig, obj, mut, exe))
+                        else:
+                            exe.register_module(handler=mk_handler(n, kind, entries, fail, sig, obj, mut, exe), name=mname(n))
                         o = "ok"
                         (mut_mods[which].add if mut else mut_mods[which].discard)(n)
                     except Exception as e:
@@ -809,10 +822,15 @@ class C16(Prop):
                     enforce = t[1] == "1"
                     extarg = {k: dict(v) for k, v in ext.items()} or None
                     cur.update(ext={k: dict(v) for k, v in ext.items()}, enforce=None if t[1] == "d" else enforce)
+                    nexec[0] += 1
                     if t[1] == "d":
-                        kind, val = self._bounded(lambda: exe.execute(extarg))
-                    else:
+                        kind, val = self._bounded(lambda: exe.execute(extarg) if nexec[0] % 2 else exe.execute(external_inputs=extarg))
+                    elif nexec[0] % 3 == 0:      # every entry form of the public signature: positional / keyword arguments
+                        kind, val = self._bounded(lambda: exe.execute(extarg, enforce))
+                    elif nexec[0] % 3 == 1:
                         kind, val = self._bounded(lambda: exe.execute(extarg, enforce_static_checks=enforce))
+                    else:
+                        kind, val = self._bounded(lambda: exe.execute(enforce_static_checks=enforce, external_inputs=extarg))
                     cs = list(calls)
                     x = {"calls": cs, "enforce": enforce, "inner": list(inner_stat), "mut": set(mut_mods[which])}
                     cstr = "[" + ";".join(f"{n}({self._show_tvs(s)})" for n, s in cs) + "]"
